@@ -72,6 +72,9 @@ func replayFile(t *testing.T, path string) int {
 		return 3
 	}
 	_ = json.Unmarshal(v.Replay, &which)
+	if which.Part == "" {
+		which.Part = "routing" // artefacts of the GX routing part carry a scenario + choice list, no part field
+	}
 	fmt.Printf("REPLAY %s recorded signature=%s part=%s\n", path, v.Signature, which.Part)
 	for _, p := range parts {
 		if p.name == which.Part {
